@@ -165,13 +165,17 @@ def r1_flush_status_gates_publication(repo=None):
 
 
 DETECTED = [("digital_rf_write_samples_to_file", "H5Dwrite"), ("digital_rf_create_hdf5_file", "H5Fcreate"),
-            ("digital_rf_create_new_directory", "mkdir")]
+            ("digital_rf_create_new_directory", "mkdir"),
+            # a failed publish (rename/remove) at roll-over is an I/O failure like the others: it must latch has_failure,
+            # otherwise the next write is accepted although the previous file was never published
+            ("digital_rf_create_hdf5_file", "digital_rf_close_hdf5_file")]
 
 
-def r2_sticky_failure(repo=None):
-    r = Rule("C10.R2", "detected I/O failures are sticky and refuse further writes")
+def r2_sticky_failure(repo=None, rid="C10.R2", detected=None, title=None):
+    r = Rule(rid, title or "detected I/O failures are sticky and refuse further writes")
     tu = cfront.lib(repo)
-    for fname, callee in DETECTED:
+    only_branches = detected is not None
+    for fname, callee in (detected or DETECTED):
         fn = tu.fn(fname)
         g = _cfg.build_c(fn)
         setters = _failure_setters(g)
@@ -225,6 +229,9 @@ def r2_sticky_failure(repo=None):
                     continue
             r.ok("%s:%s %s %s failure branch" % (LIB, cn.line, fname, callee),
                  "every error return after the failed call first sets has_failure = 1")
+    if only_branches:
+        r.guard(len(detected))
+        return r
     # entry tests
     for fname in ("digital_rf_write_hdf5", "digital_rf_write_blocks_hdf5"):
         fn = tu.fn(fname)
@@ -407,7 +414,7 @@ EXPLANATION = (
     "Error-discipline check of the C writer. R1: for both publish paths (roll-over, final close) every H5Dclose/H5Fclose "
     "of the open data file that can reach the publishing call has its status tested and its failure branch sets "
     "has_failure before the rename/remove decision; the rename/remove status is examined; the properties-file close is "
-    "examined. R2: the three detected-failure branches set has_failure before returning an error, both public write entry "
+    "examined. R2: the four detected-failure branches (H5Dwrite, H5Fcreate, mkdir, failed publish at roll-over) set has_failure before returning an error, both public write entry "
     "points test it first, it is never reset. R3: rename only on the !has_failure branch, remove on the other. R4: no "
     "I/O-table call in the library has its status discarded or overwritten before a test (two named allow-list entries). "
     "Decides the error discipline on all paths, NOT what HDF5 does internally after a failed write.")
